@@ -416,6 +416,8 @@ class Interp:
             return len(v.items) > 0
         if isinstance(v, VDict):
             return len(v.items) > 0
+        if type(v).__name__ == "VSymMap":
+            return v.n > 0
         if isinstance(v, VStr):
             if v.s is not None:
                 return len(v.s) > 0
